@@ -54,6 +54,7 @@ def build(r, name, generics=None):
     if r.random() < 0.3:
         spec.prefix = "pfx_"
     spec.attr_order_seed = r.randint(0, 6)
+    gen.add_noise(r, spec, skip=("props",))
     gen.ensure_generics_used(r, spec)
     return spec
 
@@ -115,7 +116,7 @@ def check(run):
     r = gen.rng_for(run.seed, "c15")
     specs = []
     for i in range(6000 if thorough else 1200):
-        specs.append(build(r, "E%d" % i, generics=r.choice([None, None, None, "T", "a", "N", "TU"])))
+        specs.append(build(r, "E%d" % i, generics=r.choice([None, None, None, "T", "a", "N", "TU", "Tw", "aTw", "I", "aI", "Tdef", "TwU"])))
     units = [shards.Unit("u_" + s.name.lower(), glue(s, r), meta={"enum_src": s.render()}, sig=s.signature()) for s in specs]
     run.rule = RULE
     samples = standard_flow(run, units, deps["std"], vmon, profiles=("debug",), tag="c15")
